@@ -1,6 +1,7 @@
 import NitroVerif.Base.Sexp
 import NitroVerif.Gql.Codec
 import NitroVerif.Model.Build
+import NitroVerif.Model.Shape
 /-!
 Driver of C07 and C08 (exe `nv_c07`): the Lean model of `parse_operation_document` /
 `parse_type_system_document` (generated grammar run by `Model/Peg.lean`, builders of `Model/Build.lean`).
@@ -11,6 +12,9 @@ Driver of C07 and C08 (exe `nv_c07`): the Lean model of `parse_operation_documen
       | (panic "site")                    a builder panic, with its site
       | (fuel)                            the model's depth bound was hit
   (gql.steps <rule name> "<text>") → (steps n ok|fail|fuel)    number of rule calls of the PEG run
+  (gql.shapecheck op|ts "<text>") → (ok n) | (violation "<rule>") | (noparse)
+      the statement `run_children_in_shape` of Props/C08 evaluated on this text: the children of each of the n
+      pairs of the parse are in `Shape.ruleShape` of the pair's rule
 -/
 open NitroVerif NitroVerif.Peg NitroVerif.Build NitroVerif.Gen
 
@@ -41,9 +45,32 @@ def outcome {α} (enc : α → Sexp) : Outcome α → Sexp
   | .panic p => .list [.atom "panic", .str (panicText p)]
   | .outOfFuel => .list [.atom "fuel"]
 
+/-- `ruleShape` of every rule, computed once -/
+def shapeTable : Array Shape.Re := ((List.range ruleCount).map (Shape.ruleShape gList)).toArray
+
+partial def shapeCheck : List Pair → Except RuleId Nat
+  | [] => .ok 0
+  | p :: ps => do
+    let e := (shapeTable[p.rule]?).getD .top
+    if !Shape.matchesRe e (p.children.map Pair.rule) then throw p.rule
+    let a ← shapeCheck p.children
+    let b ← shapeCheck ps
+    pure (a + b + 1)
+
+def shapeAnswer (root : RuleId) (t : String) : Sexp :=
+  let inp := t.toList
+  match Peg.parse gArr (defaultFuel inp) root inp with
+  | .pairs ps =>
+    match shapeCheck ps with
+    | .ok n => Sexp.ok [Sexp.ofNat n]
+    | .error r => .list [.atom "violation", .str (ruleName r)]
+  | _ => .list [.atom "noparse"]
+
 def handle : Sexp → Sexp
   | .list [.atom "gql.parse", .atom "op", .str t] => outcome Gql.Enc.doc (parseOpFast t.toList)
   | .list [.atom "gql.parse", .atom "ts", .str t] => outcome Gql.Enc.tsDoc (parseTsFast t.toList)
+  | .list [.atom "gql.shapecheck", .atom "op", .str t] => shapeAnswer R.ExecutableDocument t
+  | .list [.atom "gql.shapecheck", .atom "ts", .str t] => shapeAnswer R.TypeSystemExtensionDocument t
   | .list [.atom "gql.steps", .atom rule, .str t] =>
     match ruleNames.idxOf? rule with
     | some r =>
